@@ -312,7 +312,13 @@ theorem m2_enables_disposal {s : StreamProc.SS} {op : StreamProc.Op} {d' : Proc.
     · rw [if_pos hi] at h; cases h
       have hi' : s.inhand = some q := hi
       exact ⟨{ s with inhand := none, held := s.held ++ [q] }, by simp [StreamProc.step?, hq, hi'], rfl⟩
-    · rw [if_neg hi] at h; cases h
+    · rw [if_neg hi] at h
+      by_cases hp : q ∈ (Proc.proj s).propd
+      · rw [if_pos hp] at h; cases h
+        have hi' : ¬ s.inhand = some q := hi
+        have hp' : q ∈ s.propd := hp
+        exact ⟨{ s with propd := s.propd.erase q, held := s.held ++ [q] }, by simp [StreamProc.step?, hq, hi', hp'], rfl⟩
+      · rw [if_neg hp] at h; cases h
   · simp only [Proc.dstep?] at h
     by_cases hi : (Proc.proj s).inhand = some q
     · rw [if_pos hi] at h; cases h
